@@ -74,7 +74,18 @@ def _dataset(g):
                       coords={v["name"]: mk(v) for v in g.get("coords", [])}, attrs=dict(g.get("attrs") or {}))
 
 
+class InvalidSpec(Exception):
+    """the generated tree spec is not a tree xarray accepts (nothing of the codec under test was involved)."""
+
+
 def fill_tree(tree, spec):
+    try:
+        _fill_tree(tree, spec)
+    except Exception as ex:  # noqa: BLE001
+        raise InvalidSpec(f"{type(ex).__name__}: {str(ex)[:200]}") from ex
+
+
+def _fill_tree(tree, spec):
     """Graft the groups of a tree spec into an existing xr.DataTree through its public mapping interface (parents
     before children, so that no assignment replaces an already built sub-tree)."""
     import xarray as xr
@@ -184,7 +195,10 @@ def handle(p):
             return {"h5py": True}
         except Exception:  # noqa: BLE001
             return {"h5py": False}
-    det = build(p["spec"])
+    try:
+        det = build(p["spec"])
+    except InvalidSpec as ex:
+        return {"invalid_spec": str(ex)}
     out = {}
     if route == "dict":
         # to_dict -> [the in-memory conversion of processed-data Datasets that every backend performs before writing]
